@@ -544,6 +544,26 @@ def _join_weaken(cur, v, new):
     """join of two must-states beyond plain intersection: two different relations between the same pair of keys
     (x == y on one path, x <= y on the other) leave the weakest relation both imply (x <= y)"""
     extra = []
+    # flag implications ("v truthy => atoms"): the join implies what both sides imply; a side on which the flag is known
+    # to be zero implies everything
+    for a in cur:
+        if a[0] != "imp" or a in new:
+            continue
+        other = None
+        for b in v:
+            if b[0] == "imp" and b[1] == a[1]:
+                other = b
+                break
+        if other is None:
+            continue
+        if a[2] is None:
+            extra.append(other)
+        elif other[2] is None:
+            extra.append(a)
+        else:
+            both = a[2] & other[2]
+            if both:
+                extra.append(("imp", a[1], both))
     for a in cur:
         if a[0] != "rel" or a in new or a[2] not in _REL_SIGNS:
             continue
@@ -613,7 +633,7 @@ PURE_CALLS = {"bn_bits", "bn_size_bin", "bn_size_raw", "bn_size_str", "bn_is_zer
               "eb_curve_is_kbltz", "fp_prime_get_mod8", "fp_prime_get_2ad", "fp_param_get", "md_size", "log_radix", "valid_radix",
               "fb_size_str", "fp_size_str", "ep_size_bin", "ep2_size_bin", "ep3_size_bin", "ep4_size_bin", "ep8_size_bin",
               "eb_size_bin", "ed_size_bin", "fp2_size_bin", "fp12_size_bin", "abs", "alloca", "__builtin_alloca", "_alloca",
-              "malloc", "calloc"}
+              "malloc", "calloc", "core_get"}
 
 
 ALLOC_CALLS = ("alloca", "__builtin_alloca", "_alloca", "malloc", "calloc")
@@ -795,6 +815,116 @@ def derive_atoms(atoms, s):
     return out
 
 
+def flag_implication(prog, fn, e, s):
+    """("imp", key of a local integer flag, atoms | None) established by `flag = <constant>` / `flag = <pure condition>`:
+    when the flag is later found truthy, everything in force at this assignment (and the condition's own parts) held;
+    None stands for "the flag is zero here" (implies anything)"""
+    if e[0] == "d" and e[2] is not None:
+        v, rhs = e[1], e[2]
+    elif e[0] == "=":
+        l = ir.strip_casts(e[1])
+        if not (isinstance(l, list) and l[0] == "v"):
+            return None
+        v, rhs = l[1], e[2]
+    else:
+        return None
+    vi = fn.vars[v]
+    if vi.get("k") != "l" or "pc" in vi or "dims" in vi or vi.get("c") not in ("int", "unsigned int", "_Bool", "char", "unsigned char", "long", "unsigned long"):
+        return None
+    rk = key(fn, rhs)
+    k = ("v", v)
+    if isinstance(rk, tuple) and rk[0] == "i" and isinstance(rk[1], int):
+        if rk[1] == 0:
+            return ("imp", k, None)
+        own = []
+    elif isinstance(rk, tuple) and _pure_key(rk) and not (key_vars(rk) & {v}):
+        own = expand_predicates(prog, fn, key_atoms(rk, True))
+        if not own:
+            return None
+    else:
+        return None
+    inner = frozenset(a for a in list(s) + list(own) if a[0] in ("cmp", "rel") and v not in atom_vars(a))
+    if not inner:
+        return None
+    return ("imp", k, inner)
+
+
+def expand_flags(atoms, s):
+    """a flag found truthy on this edge brings in what its assignments implied"""
+    out = list(atoms)
+    for a in atoms:
+        if a[0] == "cmp" and isinstance(a[1], tuple) and a[1][0] == "v" and entails(a[2], a[3], "!=", 0):
+            for b in s:
+                if b[0] == "imp" and b[1] == a[1] and b[2] is not None:
+                    out += list(b[2])
+    return out
+
+
+_PRED_CACHE = {}
+
+
+def predicate_summary(prog, name, near, depth=0):
+    """(callee Function, key of the returned expression) for a helper whose whole body is `return <pure expression over its
+    parameters>;` - such a helper is the expression; None otherwise"""
+    g = prog.get(name, near=near) if name else None
+    if g is None:
+        return None
+    ck = (prog.config, id(g))
+    if ck in _PRED_CACHE:
+        return _PRED_CACHE[ck]
+    res = None
+    rets = []
+    ok = depth < 3 and len(g.params) <= 6
+    if ok:
+        for el in g.all_elements():
+            e = el.e
+            if e[0] == "ret":
+                rets.append(e)
+            for sub in ir.walk(g, e):
+                if sub[0] in ("=", "o=", "d", "ds") or (sub[0] == "u" and sub[1] in ("++", "--", "p++", "p--")):
+                    ok = False
+    if ok and len(rets) == 1 and rets[0][1] is not None:
+        rk = key(g, rets[0][1])
+        pset = set(g.params)
+        if isinstance(rk, tuple) and _pure_key(rk) and key_vars(rk) <= pset:
+            res = (g, rk)
+    _PRED_CACHE[ck] = res
+    return res
+
+
+def _subst(k, m):
+    if not isinstance(k, tuple):
+        return k
+    if len(k) == 2 and k[0] == "v":
+        return m.get(k[1], k)
+    return tuple(_subst(x, m) if isinstance(x, tuple) else x for x in k)
+
+
+def expand_predicates(prog, fn, atoms, depth=0):
+    """atoms about the truth of a call to a pure predicate helper: the same about the expression it returns"""
+    out = list(atoms)
+    if prog is None or depth > 2:
+        return out
+    for a in atoms:
+        if a[0] != "cmp" or not (isinstance(a[1], tuple) and a[1] and a[1][0] == "c" and isinstance(a[1][1], str)):
+            continue
+        truth = True if entails(a[2], a[3], "!=", 0) else (False if entails(a[2], a[3], "==", 0) else None)
+        if truth is None:
+            continue
+        ps = predicate_summary(prog, a[1][1], fn)
+        if ps is None:
+            continue
+        g, rk = ps
+        args = a[1][2]
+        if len(args) != len(g.params):
+            continue
+        m = {pv: args[i] for i, pv in enumerate(g.params)}
+        more = key_atoms(_subst(rk, m), truth)
+        if more:
+            out += expand_predicates(prog, fn, more, depth + 1)
+    return out
+
+
 class Facts:
     """Standard FACTS analysis: branch atoms, killed by writes to their
     variables; rules may add event facts through `gen`."""
@@ -858,6 +988,15 @@ class Facts:
                     if a[0] == "capge" and (a[1][1], None) in wp:
                         continue
                     keep.append(a)
+                elif a[0] == "imp":
+                    if paths_hit(key_paths(a[1]), wp):
+                        continue
+                    if a[2] is None:
+                        keep.append(a)
+                    else:
+                        inner = frozenset(b for b in a[2] if not paths_hit(atom_paths(b), wp))
+                        if inner:
+                            keep.append(("imp", a[1], inner))
                 elif not paths_hit(atom_paths(a), wp):
                     keep.append(a)
             s = frozenset(keep)
@@ -867,6 +1006,9 @@ class Facts:
                 s = s | frozenset(add)
             if shifted:
                 s = s | frozenset(shifted)
+            imp = flag_implication(self.prog, self.fn, node.el.e, s)
+            if imp is not None:
+                s = frozenset(a for a in s if not (a[0] == "imp" and a[1] == imp[1])) | frozenset([imp])
         if self.gen:
             add = self.gen(node, s, self.pre)
             if add:
@@ -888,6 +1030,8 @@ class Facts:
                                 if b[0] == "cmp" and b[1] == a[1] and entails(b[2], b[3], NEG[a[2]], a[3]):
                                     return INFEASIBLE
                     atoms = derive_atoms(atoms, s)
+                    atoms = expand_predicates(self.prog, self.fn, atoms)
+                    atoms = expand_flags(atoms, s)
                     if self.edge_gen:
                         self.edge_state = s
                         global CURRENT
